@@ -1,5 +1,131 @@
-(* C43 placeholder while the tie is being set up; replaced by the real theorems *)
-From V Require Import Model.PtpControllerRun.
-Theorem C43_placeholder_partial : True. Proof. exact I. Qed.
-Example C43_nonvacuous : True. Proof. exact I. Qed.
-Print Assumptions C43_placeholder_partial.
+(* C43  The PTP clock controller reports and steers consistently.
+   Property theorems only; proofs are in Proofs/PtpController.v, Proofs/PtpControllerInv.v,
+   Proofs/EstimatorAbsorb.v and Proofs/F64Clamp.v.  Model: Model/PtpController.v (LinkFilter,
+   KalmanController and KalmanControllerState::steer_clocks of statime-algo over binary64, on
+   top of Model/Estimator.v), as the code is AFTER the repair of KalmanController::clock_frequency
+   (branch fix-c43; the unrepaired code returns the offset estimate).
+
+   Vocabulary.  [qo f id] / [qf f id] are the filter's offset / frequency query of clock id
+   (value, uncertainty).  [bumped F ch r r'] : r = Ok (v, u) and r' = Ok (v + ch, u), one
+   binary64 addition.  [steer_decision old k id a] is what steer_clocks decides for the k-th
+   steered clock from the filter [old] and the clock's answers a = (get_frequency, max_frequency):
+   the call made on the clock and the change handed to the filter.  [effect chg id flt flt'] : the
+   filter's reports for clock id move from flt to flt' by exactly that change.  [fnan] = is NaN.
+   All arithmetic is Coq's primitive binary64 (the same IEEE 754 operations the code executes). *)
+From V Require Import Model.PtpControllerRun Proofs.Estimator Proofs.EstimatorAbsorb Proofs.F64Clamp
+  Proofs.PtpController Proofs.PtpControllerInv.
+
+(* The frequency query reports the frequency entry of the requested clock (row base_index + 1 of
+   the state, and the square root of its variance), the offset query the offset entry (row
+   base_index); for an unknown clock the query fails. *)
+Theorem C43_frequency_query : forall (c : ctl) id ci,
+  WF (f_est (c_filter c)) -> get_clock_info (f_est (c_filter c)) id = Some ci ->
+  ctl_clock_frequency c id =
+    Ok (mget FO (e_state (f_est (c_filter c))) (ci_base ci + 1) 0,
+        sqrt (mget FO (e_unc (f_est (c_filter c))) (ci_base ci + 1) (ci_base ci + 1))) /\
+  ctl_clock_offset c id =
+    Ok (mget FO (e_state (f_est (c_filter c))) (ci_base ci) 0,
+        sqrt (mget FO (e_unc (f_est (c_filter c))) (ci_base ci) (ci_base ci))).
+Proof. exact ctl_clock_frequency_spec. Qed.
+
+Theorem C43_frequency_query_unknown : forall (c : ctl) id,
+  get_clock_info (f_est (c_filter c)) id = None -> ctl_clock_frequency c id = Err E_UnknownClock.
+Proof. exact ctl_clock_frequency_unknown. Qed.
+
+(* Every frequency handed to a clock by a completed steer_clocks: the clock is the k-th steered
+   clock; with its answers a = (cur, max) and the filter's estimates (offset, freq) before the
+   call, wanted = cur - freq - offset/8; max is not NaN (otherwise f64::clamp panics and nothing
+   is set), the frequency set is NaN exactly when wanted is NaN, and otherwise lies in [-max, max]. *)
+Theorem C43_clamped : forall now ans (c c' : ctl) calls id f,
+  WF (f_est (c_filter c)) -> NoDup (c_clocks c) ->
+  steer_clocks now ans c = Ok (c', calls) -> In (SetFrequency id f) calls ->
+  exists k offset ou freq fu,
+    nth_error (c_clocks c) k = Some id /\
+    qo (c_filter c) id = Ok (offset, ou) /\ qf (c_filter c) id = Ok (freq, fu) /\
+    let a := nth k ans no_answers in
+    let wanted := wanted_steer a freq offset in
+    fnan (ca_max a) = false /\
+    (fnan wanted = true -> fnan f = true) /\
+    (fnan wanted = false ->
+       fnan f = false /\ (- ca_max a <=? f)%float = true /\ (f <=? ca_max a)%float = true).
+Proof. exact steer_frequency_clamped. Qed.
+
+(* the clamp itself, for all binary64 values *)
+Theorem C43_clamp_range : forall x lo hi r, f64_clamp x lo hi = Ok r ->
+  (lo <=? hi)%float = true /\
+  (fnan x = true -> fnan r = true) /\
+  (fnan x = false -> fnan r = false /\ (lo <=? r)%float = true /\ (r <=? hi)%float = true).
+Proof. exact clamp_in_range. Qed.
+
+(* A completed steer_clocks: the filter is first progressed to `now` (flt); every steered clock
+   gets exactly one call, in order; and for the k-th clock the controller's own estimate moves
+   from flt to the final filter by exactly the change that belongs to that call:
+   set_frequency(f) with get_frequency() = cur  ->  frequency estimate + (f - cur), offset unchanged;
+   step_clock(d) on the system clock            ->  offset estimate + d as seconds, frequency unchanged;
+   step_clock(trunc(-offset 2^64)) on another   ->  offset estimate + (-offset), frequency unchanged
+   (one binary64 addition each); the estimates of all other clocks are those of flt. *)
+Theorem C43_absorbed : forall now ans (c c' : ctl) calls,
+  WF (f_est (c_filter c)) -> NoDup (c_clocks c) ->
+  steer_clocks now ans c = Ok (c', calls) ->
+  exists flt (dcs : list (call * change)),
+    f_progress_time now (c_filter c) = Ok flt /\
+    c_clocks c' = c_clocks c /\ WF (f_est (c_filter c')) /\
+    calls = map fst dcs /\ length dcs = length (c_clocks c) /\
+    (forall id, ~ In id (c_clocks c) ->
+       qo (c_filter c') id = qo flt id /\ qf (c_filter c') id = qf flt id) /\
+    forall k id, nth_error (c_clocks c) k = Some id ->
+      exists dc, nth_error dcs k = Some dc /\
+        steer_decision (c_filter c) k id (nth k ans no_answers) = Ok dc /\
+        effect (snd dc) id flt (c_filter c').
+Proof. exact steer_clocks_spec. Qed.
+
+(* which call goes with which change *)
+Theorem C43_decision : forall old index id a dc, steer_decision old index id a = Ok dc ->
+  exists offset ou, qo old id = Ok (offset, ou) /\
+  ((exists freq fu actual, qf old id = Ok (freq, fu) /\
+      f64_clamp (wanted_steer a freq offset) (- ca_max a)%float (ca_max a) = Ok actual /\
+      dc = (SetFrequency id actual, FreqChange (actual - ca_cur a)%float)) \/
+   (let step := duration_from_f64_seconds (- offset)%float in
+    dc = (StepClock id step, if (index =? 0)%nat then SystemStep step else OffsetChange (- offset)%float))).
+Proof. exact steer_decision_cases. Qed.
+
+(* The hypotheses of the two theorems above hold after every history of controller operations
+   (creation and removal of clocks, external clocks and links, external data updates,
+   measurements with any oracle values, steering, time progression), starting from
+   KalmanController::new. *)
+Theorem C43_invariant : forall now id maxf w c (ops : list cop),
+  ctl_new now id maxf w = Ok c ->
+  let c' := cstate ops c in
+  WF (f_est (c_filter c')) /\ NoDup (c_clocks c') /\
+  (forall x, In x (c_clocks c') -> is_internal_clock (f_est (c_filter c')) x = true).
+Proof.
+  intros now id maxf w c ops H. destruct (history_CtlWF now id maxf w c ops H) as [H1 H2 H3]. auto.
+Qed.
+
+(* non-vacuity: a clock with offset estimate 0.5 s +- 1 ms, frequency estimate 2e-6, current steer
+   0 and max 1e-7 is set to -1e-7 (clamped), and the filter's frequency estimate becomes
+   2e-6 + (-1e-7 - 0); the system clock (offset 0 +- 1e18) is stepped by 0 *)
+Example C43_nonvacuous :
+  match ctl_new 1000 0 0x1p-20 0x1p-30 with
+  | Ok c0 =>
+      match cstep (CACX 1 0.5 0x1p-10 0x1p-19 0x1p-23 0x1p-30) c0 with
+      | (c1, _) =>
+          match steer_clocks 1000 [{| ca_cur := 0; ca_max := 0x1p-20 |}; {| ca_cur := 0; ca_max := 0x1p-23 |}] c1 with
+          | Ok (c2, calls) =>
+              calls = [StepClock 0 0; SetFrequency 1 (-0x1p-23)] /\
+              option_map fst (match qf (c_filter c2) 1 with Ok x => Some x | _ => None end)
+                = Some (0x1p-19 + (-0x1p-23 - 0))%float
+          | _ => False
+          end
+      end
+  | _ => False
+  end.
+Proof. vm_compute. split; reflexivity. Qed.
+
+Print Assumptions C43_frequency_query.
+Print Assumptions C43_frequency_query_unknown.
+Print Assumptions C43_clamped.
+Print Assumptions C43_clamp_range.
+Print Assumptions C43_absorbed.
+Print Assumptions C43_decision.
+Print Assumptions C43_invariant.
